@@ -57,7 +57,7 @@ func main() {
 		Pkg:   "./cmd/c19",
 		Rule: "grid limit {1,2,3,5,10,50} x window {5,20,60,200 ms}; per configuration and repetition the patterns tight (chunks of back-to-back calls over ~4 windows), burst (10 synchronized bursts of >= limit+2 calls, gaps 0.3..2 windows), " +
 			"paced0.8 / paced1.2 (aggregate spacing 0.8 / 1.2 x window/limit over ~4 windows), idleburst (3 bursts of 2*limit+2 calls separated by 1.05..1.55 idle windows), edge (limit calls, then one call aimed at window -/+ a small offset after the first); " +
-			"callers per run drawn from {1,2,3,4,8,16,32,64}; race and plain builds. An evaluation is one judged call. Non-trivial = a run in which at least one admission and one rejection were forced by the property " +
+			"callers per run drawn from {1,2,3,4,8,16,32,64}; race and plain builds. Long-lived limiters (limit 50 / 48 per 1 ms in quick; also 3, 5, 10, 49 in thorough): 2 spin-paced callers at 1.3x the admissible rate until the limiter has admitted 72000 (thorough: up to 140000) calls, i.e. > 65536 admissions on one instance under saturating load, same oracle. An evaluation is one judged call. Non-trivial = a run in which at least one admission and one rejection were forced by the property " +
 			"(certain under interval arithmetic); distinct by (limit, window, pattern, callers, build, seed).",
 		Assumptions: []string{
 			"time.Since(start) and the limiter's time.Now() read the same monotonic clock, which does not run backwards by more than 2 us between CPUs; the limiter's clock read lies between the harness's reads before and after Allow()",
@@ -76,6 +76,8 @@ func main() {
 			c.Require("certain_admits", 200)
 			c.Require("certain_rejects", 200)
 			c.Require("overadmission_windows_examined", 200)
+			c.Require("max.long.admissions_on_one_limiter", 66000)
+			c.Require("long.certain_rejects", 50)
 			c.Require("archive.200", 1)
 			c.Require("archive.429", 1)
 			c.Require("archive.certain_admits", 1)
@@ -110,8 +112,26 @@ func plan(tier string, seed int64) []run.Batch {
 		return n
 	}
 	sort.SliceStable(bs, func(i, j int) bool { return wn(bs[i]) > wn(bs[j]) })
-	bs = append([]run.Batch{{Kind: "archive", Variant: "race", Seed: seed*1000003 + 999983, N: 3, TimeoutS: 60},
-		{Kind: "archive", Variant: "", Seed: seed*1000003 + 999984, N: 3, TimeoutS: 60}}, bs...)
+	// long-lived limiters: more than 65536 admissions on one instance, paced at 1.3x the admissible rate
+	type lr struct {
+		limit   int
+		w       time.Duration
+		calls   int // admissions wanted
+		variant string
+	}
+	longs := []lr{{50, time.Millisecond, 72000, ""}, {48, time.Millisecond, 72000, "race"}}
+	if tier == "thorough" {
+		longs = []lr{{50, time.Millisecond, 140000, ""}, {50, time.Millisecond, 140000, "race"}, {48, time.Millisecond, 72000, ""}, {3, 200 * time.Microsecond, 72000, ""},
+			{5, 500 * time.Microsecond, 72000, "race"}, {10, time.Millisecond, 72000, ""}, {49, 2 * time.Millisecond, 72000, "race"}}
+	}
+	var front []run.Batch
+	for i, l := range longs {
+		front = append(front, run.Batch{Kind: "long", Variant: l.variant, Seed: seed*1000003 + 999900 + int64(i), N: l.calls, TimeoutS: 100,
+			Params: map[string]string{"limit": fmt.Sprint(l.limit), "window_ns": fmt.Sprint(int64(l.w))}})
+	}
+	front = append(front, run.Batch{Kind: "archive", Variant: "race", Seed: seed*1000003 + 999983, N: 3, TimeoutS: 60},
+		run.Batch{Kind: "archive", Variant: "", Seed: seed*1000003 + 999984, N: 3, TimeoutS: 60})
+	bs = append(front, bs...)
 	return bs
 }
 
@@ -121,6 +141,8 @@ func child(b run.Batch, r *ev.Result) {
 		childGrid(b, r)
 	case "archive":
 		childArchive(b, r)
+	case "long":
+		childLong(b, r)
 	}
 }
 
@@ -493,6 +515,97 @@ func childGrid(b run.Batch, r *ev.Result) {
 				return
 			}
 		}
+	}
+}
+
+// childLong drives ONE limiter through b.N calls paced (by spinning on the
+// clock, no sleeps) at 1.3x the admissible rate, so that it is saturated all
+// the time and admits about b.N/1.3 calls.
+func childLong(b run.Batch, r *ev.Result) {
+	var limit int
+	var wns int64
+	fmt.Sscan(b.P("limit"), &limit)
+	fmt.Sscan(b.P("window_ns"), &wns)
+	W := time.Duration(wns)
+	build := b.Variant
+	if build == "" {
+		build = "plain"
+	}
+	const G = 2
+	target := int64(b.N) // admissions wanted on this limiter
+	maxCalls := 4 * b.N / G
+	step := time.Duration(float64(G) * float64(wns) / (1.3 * float64(limit))) // per caller
+	run.Op("long run limit=%d window=%v admissions=%d callers=%d step=%v", limit, W, target, G, step)
+	lim := glow.NewRateLimiter(limit, W)
+	s := &sched{allow: lim.Allow, out: make([][]call, G)}
+	for g := range s.out {
+		s.out[g] = make([]call, 0, 2*b.N/G)
+	}
+	var admitted atomic.Int64
+	var wg sync.WaitGroup
+	gate := make(chan struct{})
+	for g := 0; g < G; g++ {
+		wg.Add(1)
+		go func(g int) {
+			defer wg.Done()
+			<-gate
+			// Paced against the caller's own previous call (no catching up after a
+			// stall, which would only produce a burst of rejections); ends when the
+			// limiter has admitted `target` calls: a count, not a time budget.
+			next := time.Duration(g) * step / G
+			for n := 0; n < maxCalls && admitted.Load() < target; n++ {
+				for time.Since(s.start) < next {
+				}
+				s.one(g)
+				if s.out[g][len(s.out[g])-1].OK {
+					admitted.Add(1)
+				}
+				next = time.Duration(s.out[g][len(s.out[g])-1].B) + step
+			}
+		}(g)
+	}
+	s.start = time.Now()
+	close(gate)
+	wg.Wait()
+	calls := s.merged()
+	v := judge(calls, limit, wns)
+	report(r, "long.", v)
+	r.Count("calls", v.calls)
+	r.Count("runs.long", 1)
+	r.Max("max.long.admissions_on_one_limiter", v.admitted)
+	if v.admitted >= 65537 {
+		r.Count("long.limiters_past_65536_admissions", 1)
+	}
+	r.Max(fmt.Sprintf("max.admitted_certainly_in_one_window.limit_%d", limit), v.maxInWindow)
+	if v.certainAdmit > 0 && v.certainReject > 0 {
+		r.Nontrivial(fmt.Sprintf("long/%d/%d/%s/%d", limit, wns, build, b.Seed))
+	}
+	desc := map[string]interface{}{"limit": limit, "window": W.String(), "pattern": "long", "callers": G, "build": build, "calls": v.calls, "admitted": v.admitted,
+		"duration": time.Duration(calls[len(calls)-1].E).String()}
+	r.Sample(map[string]interface{}{"run": desc, "certain_admits": v.certainAdmit, "certain_rejects": v.certainReject, "undecidable": v.undecidable})
+	admittedBefore := func(t int64) int {
+		n := 0
+		for _, c := range calls {
+			if c.OK && c.E < t {
+				n++
+			}
+		}
+		return n
+	}
+	if v.nOver > 0 {
+		r.Violationf("over-admission", map[string]interface{}{"batch": b, "run": desc, "witnesses": v.overAdmission},
+			"long-lived limiter, limit %d per %v, %d calls (%s build): %d admitted calls certainly lie within one window (%d such windows found); first witness: %s", limit, W, v.calls, build, limit+1, v.nOver, v.overText)
+	}
+	if v.nStarve > 0 {
+		var at int64
+		if m, ok := v.starvation[0].(map[string]interface{}); ok {
+			if c, ok := m["rejected_call"].(call); ok {
+				at = c.B
+			}
+		}
+		r.Violationf("starvation", map[string]interface{}{"batch": b, "run": desc, "witnesses": v.starvation, "admissions_before_first_witness": admittedBefore(at)},
+			"long-lived limiter, limit %d per %v, %d calls (%s build): %d call(s) rejected although fewer than %d admitted calls can possibly lie in the preceding window; first witness after %d admissions on this limiter: %s",
+			limit, W, v.calls, build, v.nStarve, limit, admittedBefore(at), v.starveText)
 	}
 }
 
